@@ -136,7 +136,8 @@ def run_mc(pid, name, module, cfg_text, workers=8, timeout=900, coverage=False, 
     cfg = os.path.join(d, name + ".cfg")
     open(cfg, "w").write(cfg_text)
     outp = os.path.join(d, "tlc.out")
-    cmd = ["java", "-XX:+UseParallelGC", "-Xmx8g", "-cp", CP, "tlc2.TLC", "-workers", str(workers),
+    # (the thorough tiers ask for coverage; their alphabets need a larger heap)
+    cmd = ["java", "-XX:+UseParallelGC", "-Xmx28g" if coverage else "-Xmx8g", "-cp", CP, "tlc2.TLC", "-workers", str(workers),
            "-metadir", os.path.join(d, "md"), "-cleanup", "-noGenerateSpecTE", "-config", cfg]
     if coverage:
         cmd += ["-coverage", "1"]
